@@ -621,6 +621,11 @@ def run_rotation(case):
             else:
                 w = PathTemplateWriter(tmpl)
             for i, hb in enumerate(seq):
+                if i and i == case.get("restart_at") and door == "template":
+                    # the archiving tool is restarted: a NEW writer instance carries on with the same template (and meets the files,
+                    # rotated ones included, that the first instance left)
+                    w.close()
+                    w = PathTemplateWriter(tmpl)
                 ts = "dt(2021,5,5,%d,%d,0,tz=UTC)" % (hours[hb], i)
                 if tkind == "dayshift":
                     # just after local midnight at +02:00 (the evening before in UTC): directory {ts:%Y/%m/%d} and file name follow the record's own timestamp
@@ -734,6 +739,13 @@ def cases(tier, seed):
                 for clock in ("advances", "same-second"):
                     for pre in (False, True):
                         yield {"kind": "rotation", "seq": base_seq * reps, "pre": pre, "clock": clock}
+        if k == 5:
+            for base_seq, reps in ((["h1", "h2"], 3), (["h1", "h2"], 5), (["h1", "h2", "h3"], 3), (["h1", "h1", "h2"], 3)):
+                full = base_seq * reps
+                for at in range(2, len(full)):
+                    for clock in ("advances", "same-second"):
+                        for pre in (False, True):
+                            yield {"kind": "rotation", "seq": full, "pre": pre, "clock": clock, "restart_at": at}
         if k <= 4:
             for door in ("archiver", "archive-uri"):
                 for seq in itertools.product(["h1", "h2", "h3"], repeat=k):
